@@ -509,6 +509,14 @@ class Gen:
     bound = {}
     props = []
     natoms = r.choice([1, 1, 2, 2, 3])
+    if r.random() < self.pf.get('tableless', 0.06):
+      # a rule that reads no table: constants, assignments and a guard that may well be false
+      natoms = 0
+      v = self.fresh('k')
+      ty = r.choice(['int', 'int', 'str'])
+      props.append(('c', ('unify', ('var', v), self.lit(ty))))
+      bound[v] = ty
+      props.append(('c', ('cond', self.cond_of(bound, 1))))
     for i in range(natoms):
       d = r.choice(tabs)
       newv = {}
